@@ -46,10 +46,11 @@ def scripts(n, tls, thorough):
     nonretry = ["ReadError", "Other"] + (["WriteTimeout"] if thorough else [])
     if tls:
         failed_attempts = [[r] for r in retry] + [["ok", r] for r in retry]
-        terminals = [["ok", "ok"]] + [[x] for x in nonretry] + [["ok", x] for x in nonretry] + [[], ["ok"]]
+        # a non-retryable failure is followed by unused "ok" padding: a retry after it would consume it
+        terminals = [["ok", "ok"]] + [[x, "ok", "ok"] for x in nonretry] + [["ok", x, "ok", "ok"] for x in nonretry] + [[], ["ok"]]
     else:
         failed_attempts = [[r] for r in retry]
-        terminals = [["ok"]] + [[x] for x in nonretry] + [[]]
+        terminals = [["ok"]] + [[x, "ok"] for x in nonretry] + [[]]
     for k in range(0, n + 3):
         for combo in itertools.product(failed_attempts, repeat=k):
             pre = [o for att in combo for o in att]
